@@ -27,9 +27,9 @@ type caseT struct {
 	R  operandSpec `json:"r"`
 }
 
-var opNames = map[string]string{"+": "plus", "-": "minus", "*": "mult", "DIV": "intdiv", "%": "mod", "/": "div", "neg": "neg"}
-var opCoq = map[string]string{"+": "Plus", "-": "Minus", "*": "Mult", "DIV": "IntDiv", "%": "Mod", "/": "Div", "neg": "Neg"}
-var ops = []string{"+", "-", "*", "DIV", "%", "/", "neg"}
+var opNames = map[string]string{"+": "plus", "-": "minus", "*": "mult", "DIV": "intdiv", "%": "mod", "MOD": "mod", "/": "div", "neg": "neg"}
+var opCoq = map[string]string{"+": "Plus", "-": "Minus", "*": "Mult", "DIV": "IntDiv", "%": "Mod", "MOD": "Mod", "/": "Div", "neg": "Neg"}
+var ops = []string{"+", "-", "*", "DIV", "%", "/", "neg", "MOD"}
 
 type intType struct {
 	Name, SQL, Coq string
@@ -230,7 +230,32 @@ func gen(r *lib.RNG) caseT {
 			c.L = operandSpec{Kind: "col", Type: t.Name, Text: genIntValue(r, t).String()}
 		}
 	}
-	if (c.Op == "DIV" || c.Op == "%" || c.Op == "/") && r.Chance(1, 12) { // division by zero of every flavour
+	switch r.Intn(14) {
+	case 0: // the most negative BIGINT (column, literal or CAST) against a decimal / unsigned / small operand
+		c.L = lib.Pick(r, []operandSpec{{Kind: "col", Type: "i64", Text: "-9223372036854775808"}, {Kind: "lit", Text: "-9223372036854775808"},
+			{Kind: "cast", Type: "signed", Text: "-9223372036854775808"}})
+		if c.Op != "neg" {
+			c.R = lib.Pick(r, []operandSpec{{Kind: "lit", Text: "0.5"}, {Kind: "lit", Text: "10"}, {Kind: "lit", Text: "-1"}, {Kind: "lit", Text: "-1.0"}, {Kind: "lit", Text: "1.0"},
+				{Kind: "col", Type: "u8", Text: "3"}, {Kind: "col", Type: "u64", Text: "1"}, {Kind: "col", Type: "i8", Text: "-1"}, {Kind: "col", Type: "decimal(10,2)", Text: "-1.00"},
+				{Kind: "col", Type: "u64", Text: "18446744073709551615"}, {Kind: "lit", Text: "3"}, {Kind: "col", Type: "decimal(5,0)", Text: "7"}})
+			if r.Bool() {
+				c.L, c.R = c.R, c.L
+				if r.Bool() {
+					c.L, c.R = c.R, c.L
+				}
+			}
+		}
+	case 1: // BIGINT UNSIGNED beyond 2^63 against a negative signed / decimal operand (|quotient| around 2^63)
+		if c.Op != "neg" {
+			c.L = operandSpec{Kind: lib.Pick(r, []string{"col", "lit", "cast"}), Type: "u64", Text: lib.Pick(r, []string{"18446744073709551615", "9223372036854775809", "9223372036854775808", "9223372036854775807", "18446744073709551614", "13835058055282163712"})}
+			if c.L.Kind == "cast" {
+				c.L.Type = "unsigned"
+			}
+			c.R = lib.Pick(r, []operandSpec{{Kind: "lit", Text: "-1"}, {Kind: "col", Type: "i8", Text: "-1"}, {Kind: "col", Type: "i64", Text: "-1"}, {Kind: "lit", Text: "-1.0"}, {Kind: "lit", Text: "-0.5"},
+				{Kind: "lit", Text: "-2"}, {Kind: "col", Type: "decimal(10,2)", Text: "-1.00"}, {Kind: "col", Type: "i16", Text: "-2"}, {Kind: "cast", Type: "signed", Text: "-1"}, {Kind: "lit", Text: "-1.5"}})
+		}
+	}
+	if (c.Op == "DIV" || c.Op == "%" || c.Op == "MOD" || c.Op == "/") && r.Chance(1, 12) { // division by zero of every flavour
 		switch r.Intn(4) {
 		case 0:
 			c.R = operandSpec{Kind: "lit", Text: "0"}
@@ -450,6 +475,8 @@ func run(c *lib.Ctx, cs caseT) {
 	var q string
 	if cs.Op == "neg" {
 		q = "SELECT -" + le + from
+	} else if cs.Op == "MOD" {
+		q = "SELECT MOD(" + le + ", " + re + ")" + from
 	} else {
 		q = "SELECT " + le + " " + cs.Op + " " + re + from
 	}
@@ -477,7 +504,8 @@ func run(c *lib.Ctx, cs caseT) {
 		c.PredFail(id, opn+"/non-numeric-result", fmt.Sprintf("%s returned %s", desc, eng.Rows(res.Rows)), cs)
 		return
 	}
-	lit := cs.Op == "neg" && cs.L.Kind == "lit"
+	// the child of UnaryMinus is a *Literal for a literal and for a CAST of a literal (constant-folded by the analyzer)
+	lit := cs.Op == "neg" && (cs.L.Kind == "lit" || cs.L.Kind == "cast")
 	key := ""
 	if lo.Kind != "null" && (ro.Kind != "null" || cs.Op == "neg") {
 		key = cs.Op + "|" + lo.coqOperand() + "|" + ro.coqOperand()
@@ -547,7 +575,7 @@ func run(c *lib.Ctx, cs caseT) {
 		switch cs.Op {
 		case "DIV":
 			exact = new(big.Rat).SetInt(truncRat(qr))
-		case "%":
+		case "%", "MOD":
 			t := new(big.Rat).SetInt(truncRat(qr))
 			exact = new(big.Rat).Sub(a, t.Mul(t, b))
 		default:
@@ -659,6 +687,23 @@ func main() {
 			{"*", lit("99999999999999999999999999999999999999999999999999999999999999999"), lit("99999999999999999999999999999999999999999999999999999999999999999")},
 			{"+", col("decimal(65,30)", "99999999999999999999999999999999999.999999999999999999999999999999"), col("decimal(65,30)", "0.000000000000000000000000000001")},
 			{"+", null, lit("1")}, {"/", lit("1"), null},
+			// the most negative BIGINT evaluated through DECIMAL
+			{"%", col("i64", "-9223372036854775808"), lit("10")}, {"MOD", col("i64", "-9223372036854775808"), lit("10")},
+			{"MOD", lit("-9223372036854775808"), lit("3")}, {"+", col("i64", "-9223372036854775808"), lit("0.5")},
+			{"-", lit("-9223372036854775808"), lit("0.5")}, {"*", col("i64", "-9223372036854775808"), lit("1.0")},
+			{"DIV", col("i64", "-9223372036854775808"), col("u8", "3")}, {"DIV", lit("-9223372036854775808"), col("u8", "3")},
+			{"/", col("i64", "-9223372036854775808"), lit("1")}, {"DIV", col("i64", "-9223372036854775808"), lit("1.0")},
+			{"%", col("u8", "7"), col("i64", "-9223372036854775808")}, {"DIV", col("u64", "18446744073709551615"), col("i64", "-9223372036854775808")},
+			// BIGINT UNSIGNED DIV a negative operand: |quotient| beyond 2^63 must be exact or an error
+			{"DIV", col("u64", "18446744073709551615"), lit("-1")}, {"DIV", lit("18446744073709551615"), lit("-1")},
+			{"DIV", lit("9223372036854775809"), lit("-1")}, {"DIV", lit("9223372036854775808"), lit("-1")},
+			{"DIV", col("u64", "9223372036854775809"), col("i8", "-1")}, {"DIV", col("u64", "18446744073709551615"), lit("-1.0")},
+			{"DIV", col("u64", "18446744073709551615"), lit("-0.5")}, {"DIV", col("u64", "18446744073709551615"), col("decimal(10,2)", "-1.00")},
+			{"DIV", col("u64", "18446744073709551615"), lit("-2")}, {"%", col("u64", "18446744073709551615"), lit("-1")},
+			{"MOD", col("u64", "18446744073709551615"), lit("-7")},
+			// rounding of / at every left scale (only left scale 5, i.e. final scale 9 = working scale, truncates)
+			{"/", lit("2.0"), lit("3")}, {"/", lit("2.00"), lit("3")}, {"/", lit("2.000"), lit("3")}, {"/", lit("2.0000"), lit("3")},
+			{"/", lit("2.00000"), lit("3")}, {"/", lit("2.000000"), lit("3")}, {"/", lit("2.0000000"), lit("3")},
 		}
 		for _, cs := range corpus {
 			run(c, cs)
